@@ -31,7 +31,7 @@ UNITS = {
                assumes=[]),
     'K5': dict(crate='searchlite-ffi', prefixes=['k5_'], title='FFI copy tail and buffer guard of searchlite_search',
                files=['searchlite-ffi/src/lib.rs'],
-               bounded={'k5_copy_stays_in_buffer': 'response length <= N and buf_cap <= N+2 with N = 32 (all byte values)'},
+               bounded={'k5_copy_stays_in_buffer': 'response length <= N and buf_cap <= N+2 with N = 32 in the quick tier, N = 1024 in the thorough tier (all byte values)'},
                assumes=['the two slices are the only uses of out_json_buf in searchlite_search (checked mechanically by the extractor side-condition)',
                         'null-argument guards of the other FFI entry points are not harnessed (kani-compiler panics once a harness reaches the engine)']),
 }
@@ -73,6 +73,10 @@ def run_cargo_kani(crate, prefixes, tier, extra=None, timeout=2400):
     if extra:
         cmd += extra
     env = dict(os.environ, CARGO_NET_OFFLINE='true')
+    if tier == 'thorough':
+        # larger symbolic buffers in the harnesses (cfg(verif_thorough)); separate target dir because the flags differ
+        env['RUSTFLAGS'] = (env.get('RUSTFLAGS', '') + ' --cfg verif_thorough').strip()
+        cmd[cmd.index('--target-dir') + 1] = target + '-thorough'
     t0 = time.time()
     try:
         p = subprocess.run(cmd, cwd=os.path.join(REPO, crate), env=env, stdout=subprocess.PIPE, stderr=subprocess.STDOUT, text=True, timeout=timeout)
